@@ -109,6 +109,11 @@ func runC18(c *core.Ctx) {
 				sep = append(sep, l)
 			}
 		}
+		// the name written by concatenation ("Tuple<" + strings.Join(parts, ",") + ">") instead of
+		// a format: the literals in source order are the rendering
+		if got == "" && len(sep) > 0 {
+			got = glue(sep)
+		}
 		// a separator emitted by a loop (Tuple: ",") must be a grammar atom
 		okSep := true
 		for _, s := range sep {
